@@ -713,7 +713,8 @@ def absval(o, with_tags=True):
     if not o.isValue:
         return head + ('NOVALUE',)
     if isinstance(o, univ.BitString):
-        return head + (o.asBinary(),)
+        # asBinary() of the empty bit string is '0', the same as of the single bit 0
+        return head + (o.asBinary() if len(o) else '',)
     if isinstance(o, univ.OctetString):
         return head + (o.asOctets(),)
     if isinstance(o, univ.ObjectIdentifier):
